@@ -1,11 +1,12 @@
 # pylint: disable=bad-staticmethod-argument
 
+import contextlib
 import copy
 from typing import Any, Callable
 
 from spec_classes.types import MISSING
 from spec_classes.utils.method_builder import MethodBuilder
-from spec_classes.utils.mutation import mutate_value
+from spec_classes.utils.mutation import mutate_value, thawed
 from spec_classes.utils.type_checking import type_label
 
 from .base import MethodDescriptor
@@ -166,11 +167,12 @@ class ResetMethod(MethodDescriptor):
         if not _inplace:
             self = copy.deepcopy(self)
 
-        for attr in self.__spec_class__.attrs:
-            try:
-                delattr(self, attr)
-            except AttributeError:
-                pass
+        with thawed(self) if not _inplace else contextlib.nullcontext():
+            for attr in self.__spec_class__.attrs:
+                try:
+                    delattr(self, attr)
+                except AttributeError:
+                    pass
 
         return self
 
